@@ -142,8 +142,8 @@ PROPS["C17"]["assumptions"] = ["as C01/C02"]
 PROPS["C05"] = {
     "level": "proof",
     "prop_modules": ["Flounder.Props.C05", "Flounder.Props.SearchRanked", "Flounder.Props.ChessSearch", "Flounder.Props.C05Range"],
-    "budget": {"quick": [("c05", 60), ("tie", 25)], "thorough": [("c05", 4000), ("tie", 1500)], "search": [("c05", 8000), ("tie", 3000)]},
-    "rule": "positions with a measured finite quiescence tree (small-material families + play-outs, accepted only if every successor to the search depth has a quiescence tree under a node cap; reject rate printed): fresh searcher, iterative deepening to depth 1..3, score (won/lost beyond the window) and returned move compared with plain minimax Spec.V computed by the Lean spec; quiescence value vs Spec.Q; plus the strict tie of the search model: full result incl. node counts, poll counts, reuse counters and a digest of the whole transposition table after every (possibly interrupted) search, and order_moves/order_captures outputs",
+    "budget": {"quick": [("c05", 60), ("tie", 25), ("c09", 40)], "thorough": [("c05", 1200), ("tie", 500), ("c09", 600)], "search": [("c05", 2400), ("tie", 1000), ("c09", 1200)]},
+    "rule": "positions with a measured finite quiescence tree (small-material families + play-outs, accepted only if every successor to the search depth has a quiescence tree under a node cap; reject rate printed): fresh searcher, iterative deepening to depth 1..3, score (won/lost beyond the window) and returned move compared with plain minimax Spec.V computed by the Lean spec; quiescence value vs Spec.Q; plus the strict tie of the search model: full result incl. node counts, poll counts, reuse counters and a digest of the whole transposition table after every (possibly interrupted) search, and order_moves/order_captures outputs; every key table drawn is checked for KeysGood (non-zero, pairwise distinct); searches on the engine's own searcher with a game history in place (generator c09) are tied to the model incl. node counts",
     "trusted_base": SEARCH_TB + [HASHINJ],
     "assumptions": [HASHINJ, "QFinite (the quiescence tree of every leaf is finite) — hypothesis of the theorems, measured by the generator", "no record cached by a deeper search was reused (instrumented per run: deeper=0)"],
     "finding_key": lambda sf: None,
@@ -153,7 +153,7 @@ PROPS["C06"] = {
     "level": "proof",
     "prop_modules": ["Flounder.Props.C06", "Flounder.Props.C06Full", "Flounder.Props.C06Guard"],
     "custom": [blackbox.step_after_timed],
-    "budget": {"quick": [("c06", 12)], "thorough": [("c06", 800)], "search": [("c06", 1600)]},
+    "budget": {"quick": [("c06", 12)], "thorough": [("c06", 250)], "search": [("c06", 500)]},
     "rule": "for small-tree positions: a deadline at EVERY node count 1..total (exhaustive when the completed search has <= 120 nodes, sampled otherwise), expressed both as node budget and as poll index; 1-3 interrupted searches, then every record left in the table for the root and its successors audited against minimax (s.ttclaim), a later completed search judged against minimax (only when no deeper record was reused), and the repetition stack length compared (rep=); black-box with REAL clock budgets: go movetime 0/1/3 or a clock under the reserve, then go depth d in the same process must complete all d iterations like a fresh process",
     "trusted_base": SEARCH_TB + [HASHINJ],
     "assumptions": [HASHINJ, "QFinite", "the wall clock is abstracted to 'some poll is the first to return true' (every monotone clock is such an oracle)"],
@@ -163,7 +163,7 @@ PROPS["C06"] = {
 PROPS["C07"] = {
     "level": "proof",
     "prop_modules": ["Flounder.Props.C07", "Flounder.Props.C07Dense"],
-    "budget": {"quick": [("c07", 12)], "thorough": [("c07", 800)], "search": [("c07", 1600)]},
+    "budget": {"quick": [("c07", 12)], "thorough": [("c07", 250)], "search": [("c07", 500)]},
     "custom": [blackbox.step_latency],
     "rule": "as C06 (deadline at every node count / poll index): the hook counter 'nodes entered after should_stop() first returned true' must be 0 (theorem no_new_work_after_stop) and poll counts must match the model; black-box: go movetime T on 5 positions incl. quiescence-explosive ones (16 pawns on the 7th ranks, 8 queens) must answer within T + 400 ms (observed, not proved)",
     "trusted_base": SEARCH_TB,
@@ -174,7 +174,7 @@ PROPS["C07"] = {
 PROPS["C08"] = {
     "level": "proof",
     "prop_modules": ["Flounder.Props.C08", "Flounder.Props.C08Ranked", "Flounder.Props.ChessSearch", "Flounder.Props.ChessSearchExample"],
-    "budget": {"quick": [("c08", 25)], "thorough": [("c08", 1500)], "search": [("c08", 3000)]},
+    "budget": {"quick": [("c08", 25)], "thorough": [("c08", 500)], "search": [("c08", 1000)]},
     "rule": "generated positions containing a mate in one (play-outs + heavy-piece small positions, filtered): fresh searcher at depths 1..4, the answer judged by the executable rules (must mate); positions with both mate-allowing and safe moves at depths 2..3 (answer must be safe), incl. positions with a single safe move",
     "trusted_base": SEARCH_TB + [HASHINJ],
     "assumptions": [HASHINJ, "EvalBound (C14) for the positions searched", "QFinite and no deeper record reused for the depth-2/3 half (as C05)"],
@@ -184,7 +184,7 @@ PROPS["C08"] = {
 PROPS["C03"] = {
     "level": "proof",
     "prop_modules": ["Flounder.Props.C03", "Flounder.Props.SearchRanked", "Flounder.Props.ChessSearch", "Flounder.Props.ChessSearchExample", "Flounder.Props.C03Engine", "Flounder.Props.C03EngineExample"],
-    "budget": {"quick": [("c03", 15)], "thorough": [("c03", 1500)], "search": [("c03", 3000)]},
+    "budget": {"quick": [("c03", 15)], "thorough": [("c03", 400)], "search": [("c03", 800)]},
     "custom": [blackbox.step_transcripts, blackbox.step_timed],
     "rule": "in-process: after 0-3 earlier (possibly interrupted) searches on other positions, the position is searched with a deadline at every early poll (0 = zero budget), sampled later polls/node counts and no deadline; every answer judged by the Lean rules spec (legal; 'no move' only without legal moves); mate/stalemate positions. black-box: generated UCI scripts on the real binary, one bestmove per go, legal by the spec; real clocks (movetime 0/1/5/30, clocks around the 5 s reserve)",
     "trusted_base": SEARCH_TB + [HASHINJ],
@@ -195,7 +195,7 @@ PROPS["C03"] = {
 PROPS["C04"] = {
     "level": "proof",
     "prop_modules": ["Flounder.Props.C04", "Flounder.Props.C04Gen"],
-    "budget": {"quick": [("c04", 300)], "thorough": [("c04", 20000)], "search": [("c04", 40000)]},
+    "budget": {"quick": [("c04", 300)], "thorough": [("c04", 6000)], "search": [("c04", 12000)]},
     "rule": "1-3 position commands per engine (startpos / FEN of corpus and generated valid positions, counters from {0,1,49,99,100,150} x {1,2,49,255,256,300,5949,65535}, irregular spacing), each followed by a random legal game (0-200 plies, all move kinds, all promotion pieces) written in UCI text by an independent printer; the engine's board after the command vs the model vs the fold of Spec.play; distinct = distinct command lines",
     "trusted_base": [KERNEL, AXIOMS, TIE, EXTRACT, "str::split_whitespace / split / parse modelled over List Char (ASCII white space)", "harness FEN/UCI printers generate the inputs"],
     "assumptions": ["FEN counters below 65536 (the widened field type, re-extracted from fen.rs)"],
@@ -203,7 +203,7 @@ PROPS["C04"] = {
 }
 PROPS["C09"] = {
     "level": "proof",
-    "budget": {"quick": [("c09", 150)], "thorough": [("c09", 20000)], "search": [("c09", 40000)]},
+    "budget": {"quick": [("c09", 150)], "thorough": [("c09", 2500)], "search": [("c09", 5000)]},
     "rule": "histories with repetitions: games biased towards shuffling pieces back and forth (0/1/2/3 earlier occurrences of each candidate successor), several position commands in a row; after each command every successor of the current position is asked 'draw by repetition?' (hook verif_is_repetition_draw on the engine's own searcher) vs model vs a spec that counts positions in the history given with the LAST position command; long games in which the two earlier occurrences lie more than 100 plies back; after the last position command of a case a depth-1 SEARCH on the engine's own searcher, its value judged against max over moves of (0 for a third-occurrence successor, else minus the quiescence value), and depth 2-3 searches with the history in place tied to the model incl. node counts",
     "trusted_base": [KERNEL, AXIOMS, TIE, HASHINJ],
     "assumptions": [HASHINJ, "results cached before the history existed are outside the property (as stated in it)"],
@@ -211,7 +211,7 @@ PROPS["C09"] = {
 }
 PROPS["C13"] = {
     "level": "proof",
-    "budget": {"quick": [("tie", 25)], "thorough": [("tie", 1500)], "search": [("tie", 3000)]},
+    "budget": {"quick": [("tie", 25)], "thorough": [("tie", 500)], "search": [("tie", 1000)]},
     "custom": [blackbox.step_transcripts, blackbox.step_newgame, blackbox.step_heavy_sessions],
     "rule": "black-box: every generated script is run in 3 fresh processes of the real binary (3 independent key draws): transcripts (scores, node counts, pv, bestmove; time/nps removed) must be identical and equal to the Lean model's transcript computed under the model's own keys; prefix + ucinewgame + suffix must answer the suffix exactly like a fresh process, and a script repeated after ucinewgame must print the fresh output twice; one heavy session (three middlegame searches, ~10^5..10^6 nodes, not replayed by the model) must print the same transcript in several processes. in-process: model vs engine under the engine's real drawn keys incl. node counts and TT digest",
     "trusted_base": SEARCH_TB + [HASHINJ],
